@@ -408,9 +408,16 @@ class vDDDLists:
             if 'TZID' in dt.params:
                 tzid = dt.params['TZID']
 
+        params = {}
         if tzid:
             # NOTE: no support for multiple timezones here!
-            self.params = Parameters({'TZID': tzid})
+            params['TZID'] = tzid
+        value_types = {dt.params.get('VALUE') for dt in vDDD}
+        if len(value_types) == 1 and None not in value_types:
+            # a list of DATE or PERIOD values is not of the default type
+            params['VALUE'] = value_types.pop()
+        if params:
+            self.params = Parameters(params)
         self.dts = vDDD
 
     def to_ical(self):
